@@ -138,6 +138,7 @@ func runC20(p *load.Program, r *oblig.Report) {
 	c20FixedOffsets(p, r)
 	c20ConstIndex(p, r)
 	c20LegacyDecoders(p, r)
+	c20ArrayIndex(p, r)
 	c20RequestedOnly(p, r, "C20.R5 an unrequested partition in a response cannot crash the client")
 }
 
